@@ -318,6 +318,10 @@ func (g Gap) Center() float64 {
 	return (g.Left + g.Right) / 2
 }
 
+// maxAnalysisExtent is the largest page extent (in points) for which a
+// density histogram is built; real pages are at most 14,400 points wide.
+const maxAnalysisExtent = 1e6
+
 // findVerticalGaps finds significant vertical whitespace gaps using density analysis
 // This approach handles documents with spanning headers/titles that cross column boundaries
 func (d *ColumnDetector) findVerticalGaps(fragments []text.TextFragment, pageWidth, pageHeight float64) []Gap {
@@ -328,6 +332,11 @@ func (d *ColumnDetector) findVerticalGaps(fragments []text.TextFragment, pageWid
 	// Build histogram of fragment density across X axis
 	// Use 5-point buckets for good resolution
 	bucketSize := 5.0
+	// The page width comes from the file's MediaBox: a negative, NaN or
+	// absurdly large value must not size the histogram.
+	if !(pageWidth > 0) || pageWidth > maxAnalysisExtent {
+		return nil
+	}
 	numBuckets := int(pageWidth/bucketSize) + 1
 	histogram := make([]int, numBuckets)
 
@@ -346,6 +355,9 @@ func (d *ColumnDetector) findVerticalGaps(fragments []text.TextFragment, pageWid
 		endBucket := int((f.X + f.Width) / bucketSize)
 		if startBucket < 0 {
 			startBucket = 0
+		}
+		if startBucket >= numBuckets {
+			startBucket = numBuckets - 1
 		}
 		if endBucket >= numBuckets {
 			endBucket = numBuckets - 1
